@@ -163,14 +163,19 @@ BadOps == {"reset-hard-badsparse", "reset-merge-badsparse", "reset-keep-badspars
            "checkout-create-existing",      \* checkout -b <a branch that exists>
            "checkout-missing-branch",       \* checkout <no such branch>
            "checkout-branch-and-hash",      \* branch and hash together without Create
-           "checkout-force-missing-hash"}   \* checkout -f <a commit id that is not in the repository>
+           "checkout-force-missing-hash",   \* checkout -f <a commit id that is not in the repository>
+           "merge-nonff",                   \* fast-forward merge of a branch that does not descend from HEAD
+           "merge-unsupported"}             \* merge with a strategy other than fast-forward
 RefusePost == [verdict |-> "refuse", head |-> "H", idx |-> Single(I), wt |-> Single(W)]
 \* resets to HEAD itself (the commit option left empty): the same rules as a reset to a commit with T = H
 HeadOps == {"reset-merge-head", "reset-keep-head"}
+\* Repository.Merge with the fast-forward strategy is documented as a reference-only operation: the current
+\* branch moves to T (a descendant of H), index and files are left for a later reset / checkout
+RefOnlyFF == [verdict |-> "either", head |-> "T", idx |-> Single(I), wt |-> Single(W)]
 
 \* ------------------------------------------------------------------ table
 AllOps == {"reset-hard", "checkout-force", "checkout-force-create", "checkout", "checkout-twin", "checkout-create", "reset-merge", "reset-keep",
-           "add", "add-all", "remove", "move", "clean", "commit", "status", "sparse", "pull"} \cup BadOps \cup HeadOps
+           "add", "add-all", "remove", "move", "clean", "commit", "status", "sparse", "pull", "merge-ff"} \cup BadOps \cup HeadOps
 
 Args(o) == CASE o \in {"add", "remove"} -> {<<p>> : p \in Paths}
              [] o = "move" -> {<<pq[1], pq[2]>> : pq \in {x \in Paths \X Paths : x[1] # x[2]}}
@@ -192,6 +197,7 @@ ExpectRaw(o, a) ==
     [] o \in {"reset-merge", "reset-merge-head"} -> SoftSwitch("merge")
     \* pull = fetch + fast-forward of the current branch to T (a descendant of H): git's two-way merge, as checkout
     [] o = "pull"        -> SoftSwitch("checkout")
+    [] o = "merge-ff"    -> RefOnlyFF
     [] o \in BadOps      -> RefusePost
     [] o = "add"         -> AddPost({a[1]}, FALSE)
     [] o = "add-all"     -> AddPost(Paths, TRUE)
@@ -207,7 +213,7 @@ Expect(o, a) == IF o \in {"add", "remove", "move"} /\ \E i \in 1..Len(a) : Entan
 
 \* pre-states: H, I, T any consistent trees; W any consistent worktree.  Operations that do
 \* not look at T get T = H so that the table has no duplicate rows.
-UsesT(o) == o \in {"reset-hard", "checkout-force", "checkout-force-create", "checkout", "reset-merge", "reset-keep", "sparse", "pull",
+UsesT(o) == o \in {"reset-hard", "checkout-force", "checkout-force-create", "checkout", "reset-merge", "reset-keep", "sparse", "pull", "merge-ff", "merge-nonff",
                     "reset-hard-badsparse", "reset-merge-badsparse", "reset-keep-badsparse", "reset-mixed-badsparse", "checkout-branch-and-hash"}
 Init == /\ H \in Trees /\ I \in Trees /\ W \in Trees /\ T \in Trees
         /\ op \in Ops /\ arg \in Args(op)
